@@ -94,7 +94,8 @@ def r1(cx):
                 succ_ok = False
                 for c in conds(F, body, du, wb):
                     org = c[0]
-                    if org['k'] == 'discr' and c[1] == ('variant', 'Continue'):
+                    # `?` (Continue edge of Try::branch) or an explicit match on the Result (Ok edge)
+                    if org['k'] == 'discr' and c[1] in (('variant', 'Continue'), ('variant', 'Ok')):
                         src = Q.value_source(body, du, {'cp': {'l': org['pl']['l']}})
                         if src is at:
                             succ_ok = True
